@@ -138,7 +138,13 @@ def _post_run(engine, st, ctx, out):
     cl.append(("the poll function is called exactly once per poll", "PC", z3.BoolVal(len(calls) == 1), ["C08"]))
     tot = [e for e in st.trace if e.kind == "metric" and e.callee == "POLL_TOTAL"]
     err = [e for e in st.trace if e.kind == "metric" and e.callee == "POLL_ERROR"]
-    cl.append(("POLL_TOTAL counts every poll call", "PC", z3.BoolVal(len(tot) == 1), ["C20"]))
+    from .base import label_key
+    key = label_key(engine, st, None, st.get("_name", sid))
+    cl.append(("POLL_TOTAL counts every poll call: bumped UP once, on this executor's cell", "PC",
+               z3.And(z3.BoolVal(len(tot) == 1 and tot[0].meth == "inc"), tot[0].args[0] == key if tot else False), ["C20"]))
+    ptime = [e for e in st.trace if e.kind == "metric" and e.callee == "POLL_TIME"]
+    cl.append(("POLL_TIME accumulates the (non-negative) duration of the call", "PC",
+               z3.And(z3.BoolVal(len(ptime) == 1 and ptime[0].meth == "inc"), ptime[0].args[1] >= 0 if ptime else False), ["C20"]))
     if len(calls) != 1:
         return cl
     ev = calls[0]
@@ -154,7 +160,8 @@ def _post_run(engine, st, ctx, out):
                    z3.And(snap == g["out"], g["n"] == acq["len"],
                           z3.Implies(z3.And(k >= 0, k < acq["len"]),
                                      z3.Select(g["elt_at"], k) == z3.Select(z3.Select(g["heap_at"], Val.id(z3.Select(acq["at"], k))), 1))), ["C08"]))
-    cl.append(("POLL_ERROR counts exactly the poll calls that raised", "PC", z3.BoolVal(len(err) == (1 if ev.exc is not None else 0)), ["C20"]))
+    cl.append(("POLL_ERROR counts exactly the poll calls that raised (bumped UP once each)", "PC",
+               z3.BoolVal(len(err) == (1 if ev.exc is not None else 0) and all(e.meth == "inc" for e in err)), ["C20"]))
     ye = [e for e in st.trace if e.kind in ("loop-exit", "loop-head") and e.extra.get("comp")]
     if ev.exc is not None:
         cl.append(("a raising poll function fails exactly the futures it was shown: the loop runs over the very snapshot passed to it", "PC",
@@ -380,7 +387,8 @@ def _cfg_loop():
         polls = [i for i, e in enumerate(events) if e.kind == "repo-call" and e.meth.endswith("._run_poll_fn")]
         waits = [(i, e) for i, e in enumerate(events) if e.kind == "event-wait"]
         clears = [i for i, e in enumerate(events) if e.kind == "event-clear"]
-        out = [("exactly one poll per iteration, then wait, then clear (W2: scan - wait - clear)",
+        out0 = [("an iteration that polls started with the executor alive: neither shut down nor at interpreter exit", z3.Not(engine.cfg.flags.now(ctx["head"])))]
+        out = out0 + [("exactly one poll per iteration, then wait, then clear (W2: scan - wait - clear)",
                 z3.BoolVal(len(polls) == 1 and len(waits) == 1 and len(clears) == 1 and polls[0] < waits[0][0] < clears[0] and clears[0] == len(events) - 1))]
         if waits:
             w = waits[0][1]
@@ -400,14 +408,17 @@ def _setup_loop(engine, st):
     oid = st.alloc("weakref", private=False)
     st.assume(cls_of(z3.IntVal(oid)) == engine.tag("weakref"))
     st.put("$referent", oid, ex.t)
+    from .base import StopFlags
+    engine.cfg.flags = StopFlags(engine, st, ex)
+    engine.cfg.flags.install(engine.cfg)
     return [Z(ref(oid), ("weakref", INST("PollExecutor")))], {}, {"ex": ex}
 
 
 def _post_loop(engine, st, ctx, out):
     if isinstance(out, Raise):
         return [("the poll thread never dies from an exception", "EX", z3.BoolVal(False), ["C18", "C08"])]
-    why = [a for a, b in st.decisions if b and ("not executor" in a or "is_shutdown" in a)]
-    return [("the loop ends only when the executor is gone, shut down, or the interpreter exits", "PC", z3.BoolVal(bool(why)), ["C11", "C12"])]
+    gone = any(a == "not executor" and b for a, b in st.decisions)
+    return [("the loop ends only when the executor is gone, shut down, or the interpreter exits", "PC", z3.Or(z3.BoolVal(gone), engine.cfg.flags.now(st)), ["C11", "C12"])]
 
 
 def _setup_pf_resolved_nested(engine, st):
